@@ -51,8 +51,8 @@ def main() -> int:
     ok_drv, log1 = core.lake_build(["fcdrv"])
     ctx.driver_ok = ok_drv
     ok_prf, log2 = (False, "no Props file")
-    if os.path.exists(core.props_file(prop)):
-        ok_prf, log2 = core.lake_build([f"FcProofs.Props.{prop}"])
+    if core.props_modules(prop):
+        ok_prf, log2 = core.lake_build(core.props_modules(prop))
     ok_prf = ok_prf and tables_ok
     ctx.proofs_ok = ok_prf
     ctx.build_log += ("" if ok_drv else log1[-4000:]) + ("" if ok_prf else log2[-4000:])
@@ -70,7 +70,7 @@ def main() -> int:
 
     # thorough tier: independent re-check of the compiled property module with leanchecker
     if args.tier == "thorough" and ok_prf:
-        rc, out = core.run_cmd(["lake", "env", "leanchecker", f"FcProofs.Props.{prop}"], cwd=core.LEAN_DIR, timeout=3600)
+        rc, out = core.run_cmd(["lake", "env", "leanchecker"] + core.props_modules(prop), cwd=core.LEAN_DIR, timeout=3600)
         ctx.extra["leanchecker"] = {"exit": rc, "output_tail": out[-300:]}
         if rc != 0:
             print("AUDIT: leanchecker rejected the compiled property module:", out[-500:])
